@@ -43,7 +43,7 @@ def mutators(facts):
         if a["crate"] == "xml_info" and a["kind"] == "struct" and \
                 any(fl["ty"].endswith("Context") or fl["ty"].endswith("Context>") for fl in a["variants"][0]["fields"]):
             item_types.add(p.split("::")[-1])
-    if len(item_types) < 12:
+    if len(item_types) < 7:
         raise BrokenCheck("R19-2: only %d item types recognised" % len(item_types))
     for f in facts.fns.values():
         if f["crate"] not in ("xml_info", "xml_dom") or f.get("derived"):
@@ -109,7 +109,7 @@ def run(facts, tier):
     mut = mutators(facts)
     inter = sorted(set(mut) & reach, key=lambda i: facts.fns[i]["path"])
     st2 = res.rule("R19-2", instances=len(inter), reachable=len(reach), mutators=len(mut))
-    if not mut or len(reach) < 100:
+    if not mut or len(reach) < 60:
         raise BrokenCheck("R19-2: mutator set (%d) or reachable set (%d) implausibly small" % (len(mut), len(reach)))
     for fid in inter:
         f = facts.fns[fid]
